@@ -95,3 +95,11 @@ func init() {
 			Old: "\t\tif number == nil {\n\t\t\treturn nil, errors.New(\"number must not be null\")\n\t\t}\n", New: "", Expect: "R12h:"},
 	)
 }
+
+func init() {
+	const comp = "internal/machine/script/compiler/compiler.go"
+	addMutants(
+		Mutant{Property: "C12", Name: "compile-counter-at-package-level", File: comp, Old: "func CompileFull(input string) CompileArtifacts {\n", New: "var compileStats sync.Map\n\nfunc CompileFull(input string) CompileArtifacts {\n\tcompileStats.Store(len(input), true)\n",
+			Edits: []Edit{{File: comp, Old: "import (\n", New: "import (\n\t\"sync\"\n"}}, Expect: "R12d:"},
+	)
+}
